@@ -1,0 +1,13 @@
+//go:build verif
+
+// Contracts for the deductive verification in /verif (comment-only; compiled code is unaffected).
+package lister
+
+// What the gRPC handler relies on. The listing property itself (C18: exactly the permitted, matching accounts) is a
+// postcondition of the standard implementation, which is proved to refine these clauses.
+//@ iface Service.ListAccounts(self, ctx, credentials, paths)
+//@ requires [unlocked] !prelocked && (forall k [48]byte :: !held[k])
+//@ modifies checkedset, deniedset, tokroot, db, held, prelocked, listing
+//@ ensures [released] !prelocked && (forall k [48]byte :: !held[k])
+//@ ensures [nonnil] forall k int :: 0 <= k && k < len(result1) ==> result1[k] != nil
+//@ aux-ensures [listing] forall k int :: 0 <= k && k < len(result1) ==> result1[k] in listing
